@@ -134,8 +134,20 @@ func genProfile(r *rand.Rand, i int) *profile.Profile {
 		p.Function = append(p.Function, &profile.Function{ID: uint64(k + 1), Name: fmt.Sprintf("f%d", k), SystemName: fmt.Sprintf("f%d", k), Filename: "x.go"})
 		p.Location = append(p.Location, &profile.Location{ID: uint64(k + 1), Mapping: m, Address: 0x1000 + uint64(k)*16, Line: []profile.Line{{Function: p.Function[k], Line: 1}}})
 	}
+	// sources need not agree on the set or order of sample types: only "v" is common to all
+	shape := 0
+	if r.Intn(10) < 3 {
+		shape = 1 + r.Intn(3)
+		p.SampleType = [][]*profile.ValueType{nil, {{Type: "v", Unit: "count"}, {Type: "n", Unit: "count"}}, {{Type: "v", Unit: "count"}}, {{Type: "x", Unit: "bytes"}, {Type: "v", Unit: "count"}}}[shape]
+	}
 	for k, n := 0, 1+r.Intn(3); k < n; k++ {
 		s := &profile.Sample{Value: []int64{int64(1 + r.Intn(3)), int64(1 + r.Intn(9))}, Label: map[string][]string{"src": {fmt.Sprint(i)}}}
+		switch shape {
+		case 1:
+			s.Value[0], s.Value[1] = s.Value[1], s.Value[0]
+		case 2:
+			s.Value = s.Value[1:]
+		}
 		for j, d := 0, 1+r.Intn(3); j < d; j++ {
 			s.Location = append(s.Location, p.Location[r.Intn(nf)])
 		}
@@ -334,7 +346,13 @@ func run(c *harness.Ctx) harness.Result {
 	want := map[string][2]int64{}
 	add := func(names []string, sign int64) {
 		for _, s := range names {
-			rep := ref.Report(profs[s], ref.ROpts{Index: 1})
+			vi := 0
+			for i, st := range profs[s].SampleType {
+				if st.Type == "v" {
+					vi = i
+				}
+			}
+			rep := ref.Report(profs[s], ref.ROpts{Index: vi})
 			for k, e := range rep.Entries {
 				x := want[k.Printable()]
 				x[0] += sign * e.Flat
